@@ -289,7 +289,7 @@ def _visual_expect(res, case, orig, back, text):
 
 
 # ---------------------------------------------------------- meta vocabulary --
-TEXTS = ['plain', 'with space', 'semi;colon', 'hash#tag', 'eq=sign', "it's", 'say "hi"', 'MiXed Case 42']
+TEXTS = ['plain', '', 'with space', 'semi;colon', 'hash#tag', 'eq=sign', "it's", 'say "hi"', 'MiXed Case 42']
 TAGSETS = [None, ['g1'], ['group 1', 'Group=2#x']]
 INCLUDES = ['absent', True, False, 1, 0]
 VISUALS = [
@@ -325,10 +325,15 @@ def meta_cases(tier):
                         out.append(s)
             for vi, v in enumerate(VISUALS):
                 for inc in ('absent', False):
-                    s = dict(base)
-                    s['meta'] = {} if inc == 'absent' else {'include': False}
-                    s['visual'] = v
-                    out.append(s)
+                    for empty_text in (False, True):     # an empty label followed by other items on the line
+                        s = dict(base)
+                        s['meta'] = {} if inc == 'absent' else {'include': False}
+                        if empty_text and shape == 'text':
+                            s['text'] = ''
+                        elif empty_text:
+                            s['meta']['text'] = ''
+                        s['visual'] = v
+                        out.append(s)
     return out
 
 
